@@ -68,45 +68,41 @@ theorem json_event_roundtrip_flat_partial (ev : Event) (hk : Json.KeysDistinct e
 
 /-! ## pattern encoder
 
-All statements are about `Pattern.parse pat` for an *arbitrary* pattern string `pat` (the leftmost-first
-regex grammar of `PatternFormatter::parse`) and an arbitrary event. -/
+All statements are about an *arbitrary* pattern string `pat` (parsed by the leftmost-first regex grammar of
+`PatternFormatter::parse`) and an arbitrary event. `none` is the panic outcome of the one partial primitive
+on the path, `{:>width$}` with a width above `u16::MAX` (`Pattern.fmtPad`). -/
 
-/-- Exact panic condition: `format_event` panics iff some specifier other than `%n` carries a padding
-that is `i32::MIN`, or whose absolute value exceeds both 65 535 and the byte length of the content. -/
-theorem pattern_panics_iff (pat : Text) (ev : Event) :
-    Pattern.formatEvent pat ev = none ↔
-      ∃ c p o, Pattern.Segment.spec c (some p) o ∈ Pattern.parse pat ∧ c ≠ 'n' ∧
-        (p = -2147483648 ∨ (utf8Len (Pattern.specContent c o ev) < p.natAbs ∧ 65535 < p.natAbs)) := by
-  simp only [Pattern.formatEvent, Option.map_eq_none_iff, Pattern.renderSegs_eq_none_iff]
-  constructor
-  · rintro ⟨s, hs, h⟩
-    obtain ⟨c, p, o, rfl, hn, hp⟩ := (Pattern.renderSeg_eq_none_iff ev s).mp h
-    exact ⟨c, p, o, hs, hn, (Pattern.applyPadding_eq_none_iff _ p).mp hp⟩
-  · rintro ⟨c, p, o, hs, hn, hp⟩
-    exact ⟨_, hs, (Pattern.renderSeg_eq_none_iff ev _).mpr ⟨c, p, o, rfl, hn, (Pattern.applyPadding_eq_none_iff _ p).mpr hp⟩⟩
-
-/-- Totality, partial: rendering never panics when every padding satisfies |padding| ≤ 65 535.
-(The property wants this for every pattern; false for larger paddings: `C20_fails_F13c`, `C20_fails_F13d`.) -/
-theorem pattern_total_partial (pat : Text) (ev : Event) (h : ∀ s ∈ Pattern.parse pat, Pattern.PaddingOk s) :
-    ∃ out, Pattern.formatEvent pat ev = some out := by
-  obtain ⟨out, ho⟩ := Pattern.renderSegs_total ev (Pattern.parse pat) h
+/-- Totality: `format_event` never panics — for every pattern (hence every padding the parser can
+produce, including `i32::MIN` and values above 65 535) and every event. -/
+theorem pattern_total (pat : Text) (ev : Event) : ∃ out, Pattern.formatEvent pat ev = some out := by
+  obtain ⟨out, ho⟩ := Pattern.renderSegs_total ev (Pattern.parse pat)
   exact ⟨Pattern.ensureNewline out, by simp only [Pattern.formatEvent, ho, Option.map_some]⟩
 
-example : ∀ s ∈ Pattern.parse "[%d] %-5p %t - %20m%n".toList, Pattern.PaddingOk s := by decide
+example : Pattern.formatEvent "%-2147483648m|%65536p".toList { timestamp := [], level := .info, target := [], name := [], message := some ['x'] } ≠ none := by
+  intro h; obtain ⟨o, ho⟩ := pattern_total "%-2147483648m|%65536p".toList { timestamp := [], level := .info, target := [], name := [], message := some ['x'] }
+  rw [h] at ho; cases ho
 
-/-- every padding the parser produces fits an `i32` (so the only panicking paddings are
-`i32::MIN` and 65 535 < |padding| ≤ `i32::MAX`) -/
+/-- What padding does: content at least `min(|p|, 65535)` bytes long is written unchanged, otherwise
+spaces are added on the left (`p > 0`) or right up to `min(|p|, 65535)` characters. -/
+theorem pattern_padding_spec (content : Text) (p : Int) :
+    Pattern.applyPadding content p = some
+      (if Pattern.padWidth p ≤ utf8Len content then content
+       else if 0 < p then spaces (Pattern.padWidth p - content.length) ++ content
+       else content ++ spaces (Pattern.padWidth p - content.length)) :=
+  Pattern.applyPadding_eq content p
+
+/-- every padding the parser produces fits an `i32` (a padding text outside that range means "no padding") -/
 theorem pattern_padding_in_i32 (pat : Text) : ∀ s ∈ Pattern.parse pat, Pattern.SpecInRange s :=
   Pattern.parseGo_inRange _ _ _
 
 /-- `%m` reproduces the message verbatim: whenever the pattern contains an `m` specifier (with or
-without padding/options) and rendering does not panic, the output contains the message as a contiguous
-substring (padding only adds spaces around it). -/
-theorem pattern_message_verbatim (pat : Text) (ev : Event) (out : Text) (h : Pattern.formatEvent pat ev = some out)
-    (p : Option Int) (o : Option Text) (hm : Pattern.Segment.spec 'm' p o ∈ Pattern.parse pat) :
-    ev.message.getD [] <:+: out := by
-  simp only [Pattern.formatEvent, Option.map_eq_some_iff] at h
-  obtain ⟨raw, hr, rfl⟩ := h
+without padding/options), the output contains the message as a contiguous substring (padding only
+adds spaces around it). -/
+theorem pattern_message_verbatim (pat : Text) (ev : Event) (p : Option Int) (o : Option Text)
+    (hm : Pattern.Segment.spec 'm' p o ∈ Pattern.parse pat) :
+    ∃ out, Pattern.formatEvent pat ev = some out ∧ ev.message.getD [] <:+: out := by
+  obtain ⟨raw, hr⟩ := Pattern.renderSegs_total ev (Pattern.parse pat)
+  refine ⟨Pattern.ensureNewline raw, by simp only [Pattern.formatEvent, hr, Option.map_some], ?_⟩
   exact Pattern.infix_ensureNewline _ _ (Pattern.message_verbatim_segs hr hm)
 
 example : Pattern.Segment.spec 'm' (some 20) none ∈ Pattern.parse "[%d] %-5p %t - %20m%n".toList := by decide
@@ -144,11 +140,5 @@ theorem C20_fails_F13b :
     (Json.decodeEvent true (Json.formatEvent true ev)).map (·.fields) = some []
     ∧ (Json.decodeEvent true (Json.formatEvent true ev)).map (·.level) = some "INFO".toList := by
   decide +kernel
-
-/-- F13c: `%-2147483648m` panics (`i32::abs` overflow in `apply_padding`). -/
-theorem C20_fails_F13c : Pattern.formatEvent "%-2147483648m".toList evF13 = none := by decide +kernel
-
-/-- F13d: `%65536m` panics when the message is shorter than 65 536 bytes (`core::fmt` width is `u16`). -/
-theorem C20_fails_F13d : Pattern.formatEvent "%65536m".toList evF13 = none := by decide +kernel
 
 end Fv.Props.C20
